@@ -653,6 +653,10 @@ class Ctx:
                 viol.append(rec)
         for kid, (kf, n) in known_hits.items():
             print("KNOWN-FINDING: property=%s %s [%s, %d rejected events]" % (self.pid, kf["what"], kid, n), flush=True)
+        if os.environ.get("VERIF_DUMP"):
+            with open(os.environ["VERIF_DUMP"], "w") as f:
+                for rec in viol[:5000]:
+                    f.write(json.dumps({"clauses": rec.get("clauses"), "event": rec["event"], "exp": rec.get("exp")}) + "\n")
         # write replay files for unlisted violations (first few distinct signatures)
         seen = set()
         nrep = 0
